@@ -59,7 +59,7 @@ URL_VALUES = ["https://", "http://", "https:///x", "https://:443/keys", "http://
               "https://\u00e9.example/", "https://a/%zz", "https://a\\b/", "http://a?#", "https://.", "https://../x", "https://a..b/", "ftp://a/b", "https:/a/b", "//a/b"]
 # counts between 100001 and 2^31-1 would really be iterated (a denial-of-service matter): never generated.
 # counts >= 2^31 cannot be represented by the KDF binding and fail at once - with which exception type is C16's business
-P2C_VALUES = [None, True, 0, -1, -2 ** 70, 1, 3, 100000, 1.5, "3", [], {}, [3], 2 ** 31, 2 ** 32, 2 ** 63 - 1, 2 ** 63, 2 ** 64, 10 ** 30]
+P2C_VALUES = [None, True, 0, -1, 3.0, 1000.0, 2.048e3, -0.0, 1e10, 2.0 ** 40, float(2 ** 31 - 1), -2 ** 70, 1, 3, 100000, 1.5, "3", [], {}, [3], 2 ** 31, 2 ** 32, 2 ** 63 - 1, 2 ** 63, 2 ** 64, 10 ** 30]
 WEIRD_JWKS = [
     {"kty": "EC", "crv": "P-999", "x": "AA", "y": "AA"}, {"kty": "EC", "crv": "P-256", "x": "AA"}, {"kty": "EC", "crv": "P-256", "x": 1, "y": 2},
     {"kty": "EC", "crv": ["P-256"], "x": "AA", "y": "AA"}, {"kty": "OKP", "crv": "P-256", "x": "AA"}, {"kty": "OKP", "crv": "X25519"},
